@@ -118,14 +118,14 @@ class C08(Prop):
         B.append(E.Case("b-large", big, {"origin": "boundary"}))
         return B
 
-    OPS = [("ld", 9), ("cl", 14), ("mv", 26), ("de", 9), ("ec", 8), ("dc", 2), ("ln", 4), ("fo", 5), ("fl", 3),
+    OPS = [("ld", 9), ("cl", 14), ("mv", 28), ("de", 9), ("ec", 14), ("dc", 2), ("ln", 4), ("fo", 5), ("fl", 3),
            ("kp", 3), ("rd", 2), ("err", 1)]
     HOPS = [("ld", 5), ("cl", 8), ("mv", 24), ("de", 14), ("ec", 5), ("dc", 1), ("ln", 2), ("fo", 2), ("fl", 1),
             ("kp", 2), ("rd", 2), ("err", 2), ("mvarg", 6), ("nop", 2)]
 
     def gen_op(self, rng, st, table, self_id=None):
         k = rng.weighted(table)
-        hi = max(2, st["est"] + 1)
+        hi = max(2, st["top"] + 1 + (st["est"] - st["top"]) // 2)
 
         def oid():
             # mostly existing objects, sometimes the executing object, rarely one that does not exist (yet)
@@ -135,6 +135,8 @@ class C08(Prop):
         if k in ("ld", "cl"):
             b = rng.weighted([("b%d" % rng.below(st["nbp"]), 30), ("nx", 1), ("bad", 1)])
             st["est"] += 1
+            if table is self.OPS:
+                st["top"] += 1
             if k == "cl":
                 st["ncl"] += 1
             return "%s,%s" % (k, b)
@@ -154,13 +156,14 @@ class C08(Prop):
         return k
 
     def gen_case(self, rng, cid, large=False):
-        st = {"est": 1, "ncl": 0, "nbp": rng.range(2, NBP) if not large else NBP_LARGE}
+        st = {"est": 1, "top": 1, "ncl": 0, "nbp": rng.range(2, NBP) if not large else NBP_LARGE}
         body = []
         if large:
             n0 = rng.range(100, 260)
             for i in range(n0):
                 body.append("t %s,b%d" % (("cl", rng.below(12)) if rng.chance(2, 3) else ("ld", rng.below(NBP_LARGE))))
                 st["est"] += 1
+                st["top"] += 1
                 st["ncl"] += 1
             st["nbp"] = 40
             for i in range(n0):
